@@ -15,6 +15,7 @@ def run(tier, seed):
     run_rt(rep, rt_final.FINAL + [rt_walk.VisitC(), rt_errors.MapIndexC()], tier)
     wiring.class_compile_obligations(rep, tier)
     wiring.span_recording_obligations(rep, tier)
+    wiring.metadata_obligations(rep, tier)
     rep.assumptions.append('"unaffected by abandoned alternatives / memoised reuse / pos" are frame facts: raw spans are written only into the fresh '
                            'instance, the memo hands out the same object (converted once: visit de-duplicates by identity), indices are absolute')
     rep.assumptions.append('nesting / disjointness / order of spans follow from monotone position threading of Seq/List/class bodies (C01/C03/C05 contracts) when no Backtrack/lookahead is involved (paper)')
